@@ -470,9 +470,13 @@ class StmtMixin:
         return out
 
     def st_With(self, node, st):
-        if len(node.items) != 1:
-            raise Unsupported("multi-item with")
         item = node.items[0]
+        if len(node.items) > 1:
+            # `with a, b: body` is `with a: with b: body` (language reference 8.5)
+            inner = ast.With(items=node.items[1:], body=node.body)
+            ast.copy_location(inner, node)
+            ast.fix_missing_locations(inner)
+            node = ast.With(items=[item], body=[inner])
         for cm, s in self.ev(item.context_expr, st):
             if isinstance(cm, Exc):
                 yield ("raise", cm), s
@@ -497,7 +501,43 @@ class StmtMixin:
             if r is not None:
                 yield from r
                 return
+        cls = c0.cls if isinstance(c0, ObjState) else (c0.sort.name if isinstance(c0, V) and c0.sort.kind == "rec" else None)
+        if cls is not None:
+            mod, pycls = self.class_of_record(cls)
+            if mod is not None and f"{pycls}.__enter__" in mod.funcs and f"{pycls}.__exit__" in mod.funcs:
+                yield from self.with_object(mod, pycls, cm, target, body, st)
+                return
         raise Unsupported("with statement on this context manager")
+
+    def with_object(self, mod, pycls, cm, target, body, st):
+        """`with obj [as t]: body` for an object whose class has __enter__/__exit__ under contract (language reference 8.5):
+        __enter__ runs first; __exit__ runs on every way out of the body; an exception propagates unless __exit__
+        returns a true value."""
+        for ev, s1 in self.call_function(mod, f"{pycls}.__enter__", [cm], {}, st):
+            if isinstance(ev, Exc):
+                yield ("raise", ev), s1
+                continue
+            if target is not None:
+                if not isinstance(target, ast.Name):
+                    raise Unsupported("with ... as <non-name>")
+                s1.env[target.id] = ev
+            for sig, s2 in self.exec_block(body, s1):
+                dummy = [self.fresh(Sort("opaque", (), "Any"), "exc", s2) for _ in range(3)]
+                for xv, s3 in self.call_function(mod, f"{pycls}.__exit__", [cm] + dummy, {}, s2):
+                    if isinstance(xv, Exc):
+                        yield ("raise", xv), s3
+                    elif sig[0] == "raise":
+                        swallow = self.truthy(xv, s3) if not (isinstance(xv, V) and xv.sort.kind == "none") else z3.BoolVal(False)
+                        if z3.is_false(z3.simplify(swallow)):
+                            yield sig, s3
+                        else:
+                            sa, sb = s3.copy(), s3
+                            sa.assume(swallow)
+                            yield ("next",), sa
+                            sb.assume(z3.Not(swallow))
+                            yield sig, sb
+                    else:
+                        yield sig, s3
 
     # ------------------------------------------------------------------ loops
     def loop_spec(self, node):
